@@ -84,6 +84,8 @@ harness(void)
 	size_t sl = strlen(u->u_scheme);
 	CHECK(strncmp(raw, u->u_scheme, sl) == 0 && strncmp(raw + sl, "://", 3) == 0,
 	    "scheme is exactly a known scheme followed by ://");
+	if (!(strncmp(raw, u->u_scheme, sl) == 0 && strncmp(raw + sl, "://", 3) == 0))
+		return; /* (reported above; the checks below assume it) */
 	CHECK(u->u_path != NULL, "path never NULL");
 
 	if (!is_pathlike(u->u_scheme)) {
